@@ -12,6 +12,8 @@ requests (floats as IEEE bit patterns, arrays row-major as `re im re im …`):
   fft2  <dir> m n M N <2mn floats>                      pad to (M,N) + ifftshift/fft2(ortho)/fftshift
   cztglue n M L                                          the nine integers of the index glue
   cztbasis n M L alpha s                                 h (L values), b (n values), a (M values) of `_prepare_czt_basis`
+  cache2 nf stores probe miss use clear (C | K v1 … v_nf)*   several-dictionary machine (lists comma-joined, `-` = empty):
+                                                          reply per op `ok|err|c:len,len,…` (distinct keys per dictionary of `stores`)
   cache nf  (C | K v1 … v_nf)*                           executor cache state machine with nf key fields (string values):
                                                          per op `m:<size>` (miss), `h:<size>` (hit) or `c:0` (clear)
 reply: 2MN floats (row-major re im), or integers
@@ -50,6 +52,23 @@ partial def cacheRun (nf : Nat) (x : Exec String Nat) (c : Cache String Nat) (to
       let c' := (callStep x c st).2
       cacheRun nf x c' (rest.drop nf) ((if c'.length = before then s!"h:{c'.length}" else s!"m:{c'.length}") :: acc)
   | _ => none
+
+/-- run the several-dictionary machine (`callStep2`, `runOps2`/`clear2`, `dictLen`) on a token stream -/
+partial def cache2Run (nf : Nat) (x : Exec2 String Nat) (stores : List String) (s : Dicts String Nat) (toks : List String)
+    (acc : List String) : Option (List String) :=
+  let lens := fun (s' : Dicts String Nat) => ",".intercalate (stores.map fun d => toString (dictLen (s' d)))
+  match toks with
+  | [] => some acc.reverse
+  | "C" :: rest => let s' := runOps2 x s [Op.clear]; cache2Run nf x stores s' rest (s!"c:{lens s'}" :: acc)
+  | "K" :: rest =>
+    if rest.length < nf then none else
+      let vals := (rest.take nf).toArray
+      let st : St String := fun name => vals.getD name.toNat! ""
+      let r := callStep2 x s st
+      cache2Run nf x stores r.2 (rest.drop nf) (s!"{if r.1.all Option.isSome then "ok" else "err"}:{lens r.2}" :: acc)
+  | _ => none
+
+def parseNames (s : String) : List String := if s = "-" then [] else s.splitOn ","
 
 def step (t : List String) : String :=
   match t with
@@ -106,6 +125,17 @@ def step (t : List String) : String :=
       fmtVec L (cztHS cztSignsRef eFwd (cztGlue n M L) α) ++ " " ++ fmtVec n (cztBS cztSignsRef eFwd nrmF n α s) ++ " " ++
         fmtVec M (cztAS cztSignsRef eFwd M α s)
     | _, _, _, _, _ => "bad-op"
+  | "cache2" :: nf :: stores :: probe :: miss :: use :: clr :: toks =>
+    match nf.toNat? with
+    | some nf =>
+      let fields := (List.range nf).map toString
+      let x : Exec2 String Nat := { keyFields := fields, buildReads := fields, build := fun d l => d.length + l.length,
+                                    proto := { probe := parseNames probe, missWrites := parseNames miss,
+                                               useReads := parseNames use, clearResets := parseNames clr } }
+      match cache2Run nf x (parseNames stores) noDicts toks [] with
+      | some out => " ".intercalate out
+      | none => "bad-op"
+    | none => "bad-op"
   | "cache" :: nf :: toks =>
     match nf.toNat? with
     | some nf =>
